@@ -70,21 +70,16 @@ def refS4 (ao ecco : R) : List R :=
 /-- the deep-space switch of `sgp4init`: `2π / no_unkozai ≥ 225` minutes -/
 def refDeep (no : R) : Bool := (2 : R) * pi / no ≥ (225.0 : R)
 
-/-- the coefficients `sgp4init` stores in the satellite record, in the order
-`[eta, cc1, cc3, cc4, cc5, mdot, argpdot, nodedot, omgcof, xmcof, nodecf, t2cof, xlcof, aycof, d2, d3, d4, t3cof, t4cof, t5cof]`
-(`cc3` is a local of `sgp4init`; `d2 … t5cof` are only set — and only used — when `isimp = 0`) -/
-def refCoef (no ao sfour qzms24 ecco inclo argpo bstar : R) : List R :=
+/-- drag coefficients: `[eta, cc1, cc3, cc4, cc5, omgcof, xmcof]` (`cc3` is a local of `sgp4init`).  The two guards
+`ecco > 1.0e-4` are the reference's: below that eccentricity `cc3` (hence `omgcof`) and `xmcof` stay zero. -/
+def refCoefDrag (no ao sfour qzms24 ecco inclo argpo bstar : R) : List R :=
   let eccsq : R := ecco * ecco
   let omeosq : R := (1.0 : R) - eccsq
-  let rteosq : R := sqrt omeosq
   let cosio : R := cos inclo
   let cosio2 : R := cosio * cosio
   let sinio : R := sin inclo
-  let po : R := ao * omeosq
   let con42 : R := (1.0 : R) - (5.0 : R) * cosio2
   let con41 : R := -con42 - cosio2 - cosio2
-  let posq : R := po * po
-  let pinvsq : R := (1.0 : R) / posq
   let tsi : R := (1.0 : R) / (ao - sfour)
   let eta : R := ao * ecco * tsi
   let etasq : R := eta * eta
@@ -101,6 +96,22 @@ def refCoef (no ao sfour qzms24 ecco inclo argpo bstar : R) : List R :=
       - w_j2 * tsi / (ao * psisq) * (-(3.0 : R) * con41 * ((1.0 : R) - (2.0 : R) * eeta + etasq * ((1.5 : R) - (0.5 : R) * eeta))
         + (0.75 : R) * x1mth2 * ((2.0 : R) * etasq - eeta * ((1.0 : R) + etasq)) * cos ((2.0 : R) * argpo)))
   let cc5 : R := (2.0 : R) * coef1 * ao * omeosq * ((1.0 : R) + (2.75 : R) * (etasq + eeta) + eeta * etasq)
+  let omgcof : R := bstar * cc3 * cos argpo
+  let xmcof : R := if ecco > (1.0e-4 : R) then -((2 : R) / (3 : R)) * coef * bstar / eeta else (0.0 : R)
+  [eta, cc1, cc3, cc4, cc5, omgcof, xmcof]
+
+/-- secular rates: `[mdot, argpdot, nodedot, xhdot1]` -/
+def refCoefDot (no ao ecco inclo : R) : List R :=
+  let eccsq : R := ecco * ecco
+  let omeosq : R := (1.0 : R) - eccsq
+  let rteosq : R := sqrt omeosq
+  let cosio : R := cos inclo
+  let cosio2 : R := cosio * cosio
+  let po : R := ao * omeosq
+  let con42 : R := (1.0 : R) - (5.0 : R) * cosio2
+  let con41 : R := -con42 - cosio2 - cosio2
+  let posq : R := po * po
+  let pinvsq : R := (1.0 : R) / posq
   let cosio4 : R := cosio2 * cosio2
   let temp1 : R := (1.5 : R) * w_j2 * pinvsq * no
   let temp2 : R := (0.5 : R) * temp1 * w_j2 * pinvsq
@@ -110,14 +121,25 @@ def refCoef (no ao sfour qzms24 ecco inclo argpo bstar : R) : List R :=
       + temp3 * ((3.0 : R) - (36.0 : R) * cosio2 + (49.0 : R) * cosio4)
   let xhdot1 : R := -temp1 * cosio
   let nodedot : R := xhdot1 + ((0.5 : R) * temp2 * ((4.0 : R) - (19.0 : R) * cosio2) + (2.0 : R) * temp3 * ((3.0 : R) - (7.0 : R) * cosio2)) * cosio
-  let omgcof : R := bstar * cc3 * cos argpo
-  let xmcof : R := if ecco > (1.0e-4 : R) then -((2 : R) / (3 : R)) * coef * bstar / eeta else (0.0 : R)
-  let nodecf : R := (3.5 : R) * omeosq * xhdot1 * cc1
-  let t2cof : R := (1.5 : R) * cc1
+  [mdot, argpdot, nodedot, xhdot1]
+
+/-- long-period coefficients `[xlcof, aycof]`, with the reference's guard against the division by zero at 180 degrees -/
+def refCoefLong (inclo : R) : List R :=
+  let cosio : R := cos inclo
+  let sinio : R := sin inclo
   let xlcof : R := if absR (cosio + (1.0 : R)) > (1.5e-12 : R)
     then -(0.25 : R) * w_j3oj2 * sinio * ((3.0 : R) + (5.0 : R) * cosio) / ((1.0 : R) + cosio)
     else -(0.25 : R) * w_j3oj2 * sinio * ((3.0 : R) + (5.0 : R) * cosio) / (1.5e-12 : R)
   let aycof : R := -(0.5 : R) * w_j3oj2 * sinio
+  [xlcof, aycof]
+
+/-- what depends on `cc1` only: `[nodecf, t2cof, d2, d3, d4, t3cof, t4cof, t5cof]` (`d2 … t5cof` are only set — and only used —
+when `isimp = 0`) -/
+def refCoefD (ao sfour ecco cc1 xhdot1 : R) : List R :=
+  let omeosq : R := (1.0 : R) - ecco * ecco
+  let tsi : R := (1.0 : R) / (ao - sfour)
+  let nodecf : R := (3.5 : R) * omeosq * xhdot1 * cc1
+  let t2cof : R := (1.5 : R) * cc1
   let cc1sq : R := cc1 * cc1
   let d2 : R := (4.0 : R) * ao * tsi * cc1sq
   let temp : R := d2 * tsi * cc1 / (3.0 : R)
@@ -126,7 +148,24 @@ def refCoef (no ao sfour qzms24 ecco inclo argpo bstar : R) : List R :=
   let t3cof : R := d2 + (2.0 : R) * cc1sq
   let t4cof : R := (0.25 : R) * ((3.0 : R) * d3 + cc1 * ((12.0 : R) * d2 + (10.0 : R) * cc1sq))
   let t5cof : R := (0.2 : R) * ((3.0 : R) * d4 + (12.0 : R) * cc1 * d3 + (6.0 : R) * d2 * d2 + (15.0 : R) * cc1sq * ((2.0 : R) * d2 + cc1sq))
-  [eta, cc1, cc3, cc4, cc5, mdot, argpdot, nodedot, omgcof, xmcof, nodecf, t2cof, xlcof, aycof, d2, d3, d4, t3cof, t4cof, t5cof]
+  [nodecf, t2cof, d2, d3, d4, t3cof, t4cof, t5cof]
+
+/-- all coefficients `sgp4init` stores in the satellite record, in the order
+`[eta, cc1, cc3, cc4, cc5, mdot, argpdot, nodedot, omgcof, xmcof, nodecf, t2cof, xlcof, aycof, d2, d3, d4, t3cof, t4cof, t5cof]` -/
+def refCoef (no ao sfour qzms24 ecco inclo argpo bstar : R) : List R :=
+  match refCoefDrag no ao sfour qzms24 ecco inclo argpo bstar with
+  | [eta, cc1, cc3, cc4, cc5, omgcof, xmcof] =>
+    match refCoefDot no ao ecco inclo with
+    | [mdot, argpdot, nodedot, xhdot1] =>
+      match refCoefLong inclo with
+      | [xlcof, aycof] =>
+        match refCoefD ao sfour ecco cc1 xhdot1 with
+        | [nodecf, t2cof, d2, d3, d4, t3cof, t4cof, t5cof] =>
+          [eta, cc1, cc3, cc4, cc5, mdot, argpdot, nodedot, omgcof, xmcof, nodecf, t2cof, xlcof, aycof, d2, d3, d4, t3cof, t4cof, t5cof]
+        | _ => []
+      | _ => []
+    | _ => []
+  | _ => []
 
 /-! ## `sgp4`, near-Earth (`method = 'n'`), full drag model (`isimp = 0`) -/
 
@@ -186,8 +225,9 @@ def refKepler (axnl aynl u : R) : Nat → R → R
     let tem5 : R := if absR tem5 ≥ (0.95 : R) then (if tem5 > (0.0 : R) then (0.95 : R) else -(0.95 : R)) else tem5
     if absR tem5 ≥ (1.0e-12 : R) then (if fuel = 0 then eo1 else refKepler axnl aynl u fuel (eo1 + tem5)) else eo1
 
-/-- short-period periodics and orientation vectors: position (km) and velocity (km/s) -/
-def refShort (am nm axnl aynl eo1 nodep inclo con41 x1mth2 x7thm1 : R) : List R :=
+/-- "short period preliminary quantities" and "update for short period periodics": `[mrt, su, xnode, xinc, mvt, rvdot]`.
+`sin2u`, `cos2u` are formed from `sinu`, `cosu` as they come out of the Kepler solution (unit vector only if `rl = am(1 - ecose)`). -/
+def refShortTerms (am nm axnl aynl eo1 nodep inclo con41 x1mth2 x7thm1 : R) : List R :=
   let sineo1 : R := sin eo1
   let coseo1 : R := cos eo1
   let ecose : R := axnl * coseo1 + aynl * sineo1
@@ -215,6 +255,10 @@ def refShort (am nm axnl aynl eo1 nodep inclo con41 x1mth2 x7thm1 : R) : List R 
   let xinc : R := inclo + (1.5 : R) * temp2 * cosip * sinip * cos2u
   let mvt : R := rdotl - nm * temp1 * x1mth2 * sin2u / w_xke
   let rvdot : R := rvdotl + nm * temp1 * (x1mth2 * cos2u + (1.5 : R) * con41) / w_xke
+  [mrt, su, xnode, xinc, mvt, rvdot]
+
+/-- "orientation vectors", "position and velocity (in km and km/sec)" -/
+def refFrame (mrt su xnode xinc mvt rvdot : R) : List R :=
   let sinsu : R := sin su
   let cossu : R := cos su
   let snod : R := sin xnode
@@ -232,6 +276,12 @@ def refShort (am nm axnl aynl eo1 nodep inclo con41 x1mth2 x7thm1 : R) : List R 
   let mr : R := mrt * w_re
   let vkmpersec : R := w_re * w_xke / (60.0 : R)
   [mr * ux, mr * uy, mr * uz, (mvt * ux + rvdot * vx) * vkmpersec, (mvt * uy + rvdot * vy) * vkmpersec, (mvt * uz + rvdot * vz) * vkmpersec]
+
+/-- short-period periodics and orientation vectors: position (km) and velocity (km/s) -/
+def refShort (am nm axnl aynl eo1 nodep inclo con41 x1mth2 x7thm1 : R) : List R :=
+  match refShortTerms am nm axnl aynl eo1 nodep inclo con41 x1mth2 x7thm1 with
+  | [mrt, su, xnode, xinc, mvt, rvdot] => refFrame mrt su xnode xinc mvt rvdot
+  | _ => []
 
 /-- `twoline2rv` elements ↦ `[isimp, deep, no_unkozai, ao] ++ refCoef`: everything `sgp4init` stores that the near-Earth path reads -/
 def refInit (ecco inclo argpo no_kozai bstar : R) : List R :=
